@@ -1,3 +1,105 @@
-From Coq Require Import List Bool Arith NArith Lia.
-From C05 Require Import Model.
+(* C05 — the property-level statements assembled from ProofsOrder / ProofsNorm / ProofsSearch. *)
+From Coq Require Import List Bool Arith NArith Lia Sorting.Sorted Permutation.
+From C05 Require Import Model ProofsOrder ProofsNorm ProofsSearch.
 Import ListNotations.
+
+(* ------------------------------------------------------------------ one fraction holding everything *)
+Lemma hits_concat : forall p fs, hits p (concat fs) = concat (map (hits p) fs).
+Proof.
+  induction fs as [|f fs IH]; simpl; auto. unfold hits in *. rewrite filter_app, IH. reflexivity.
+Qed.
+
+Lemma hit_ids_concat : forall p fs, hit_ids p (concat fs) = all_hit_ids p fs.
+Proof.
+  intros. unfold hit_ids, all_hit_ids. rewrite hits_concat, concat_map, map_map. reflexivity.
+Qed.
+
+Lemma one_fraction_ids : forall p fs,
+  q_ids (frac_search p (p_limit p) (concat fs)) = spec_ids p fs.
+Proof.
+  intros. rewrite frac_search_ids, hit_ids_concat. reflexivity.
+Qed.
+
+(* thm:C05_topk_partition *)
+Theorem topk_partition :
+  forall (p : params) (fs : list frac) (keep : frac -> bool) (prepared : list frac) (fpi : nat),
+    (forall f, In f fs -> keep f = false -> hit_ids p f = []) ->
+    Permutation prepared (filter keep fs) ->
+    KS (p_order p) prepared ->
+    exists r, search_docs p fpi prepared = Ok r
+      /\ q_ids r = spec_ids p fs
+      /\ q_ids r = q_ids (frac_search p (p_limit p) (concat fs)).
+Proof.
+  intros p fs keep prepared fpi HK HP HS.
+  destruct (search_docs_ids p fpi prepared HS) as [r [Hr Hi]].
+  exists r. split; auto.
+  assert (q_ids r = spec_ids p fs).
+  { rewrite Hi. unfold spec_ids, global_order. apply topk_ext. eapply prepared_hits; eauto. }
+  split; auto. rewrite one_fraction_ids. auto.
+Qed.
+
+(* the hypotheses are met by the code's own FilterInRange + Sort *)
+Theorem topk_partition_prepare : forall p fs fpi,
+  exists r, search_docs p fpi (prepare p fs) = Ok r /\ q_ids r = spec_ids p fs.
+Proof.
+  intros. destruct (topk_partition p fs (intersecting p) (prepare p fs) fpi) as [r [H1 [H2 _]]].
+  - intros f _ H. apply not_intersecting_no_hit; auto.
+  - apply prepare_perm.
+  - apply prepare_KS.
+  - eauto.
+Qed.
+
+(* the result lists every ID once and in order *)
+Lemma spec_ids_SS : forall p fs, SS (p_order p) (spec_ids p fs).
+Proof. intros. apply topk_SS. Qed.
+
+(* ------------------------------------------------------------------ paging *)
+Lemma paginate_fst : forall ids off size, fst (paginate ids off size) = firstn size (skipn off ids).
+Proof.
+  intros. unfold paginate.
+  assert ((if (off <? length ids)%nat then skipn off ids else []) = skipn off ids) as ->.
+  { destruct (off <? length ids)%nat eqn:E; auto. apply Nat.ltb_ge in E. symmetry. apply skipn_all2. auto. }
+  destruct (size <? length (skipn off ids))%nat eqn:E; simpl; auto.
+  apply Nat.ltb_ge in E. symmetry. apply firstn_all2. auto.
+Qed.
+
+Lemma paginate_snd : forall ids off size, snd (paginate ids off size) = length (fst (paginate ids off size)).
+Proof.
+  intros. unfold paginate.
+  destruct (size <? length (if (off <? length ids)%nat then skipn off ids else []))%nat eqn:E; simpl; auto.
+  apply Nat.ltb_lt in E. rewrite firstn_length. lia.
+Qed.
+
+(* the page (offset, size) of the global list G: the stores and the merge deliver the first
+   offset+size entries, paginateIDs cuts the page out *)
+Definition page (G : list ID) (off size : nat) : list ID :=
+  fst (paginate (firstn (off + size) G) off size).
+
+Lemma page_eq : forall G off size, page G off size = firstn size (skipn off G).
+Proof.
+  intros. unfold page. rewrite paginate_fst. rewrite <- firstn_skipn_comm.
+  rewrite firstn_firstn. f_equal. lia.
+Qed.
+
+Lemma firstn_app_skipn : forall {A} a b (l : list A), firstn a l ++ firstn b (skipn a l) = firstn (a + b) l.
+Proof.
+  induction a; intros b l; simpl; auto. destruct l; simpl.
+  - rewrite firstn_nil. reflexivity.
+  - f_equal. apply IHa.
+Qed.
+
+Lemma skipn_add : forall {A} b a (l : list A), skipn a (skipn b l) = skipn (b + a) l.
+Proof.
+  induction b; intros a l; simpl; auto. destruct l; simpl; auto. apply skipn_nil.
+Qed.
+
+(* thm:C05_paging_tiles *)
+Theorem paging_tiles : forall G off s s',
+  page G off s ++ page G (off + s) s' = page G off (s + s')
+  /\ G = firstn off G ++ page G off s ++ skipn (off + s) G.
+Proof.
+  intros. rewrite !page_eq. split.
+  - rewrite <- skipn_add. apply firstn_app_skipn.
+  - rewrite <- skipn_add.
+    rewrite (firstn_skipn s (skipn off G)). rewrite firstn_skipn. reflexivity.
+Qed.
